@@ -224,7 +224,7 @@ def compare_with_model(run: Run, rows):
 
 
 def check(run: Run, lean: dict) -> int:
-    n = 150 if run.tier == "quick" else 4000
+    n = run.budget(150, 4000)
     run.extra["rule"] = (
         "forests reached by random Legal histories; up to 4 nodes of any kind cloned per forest (deep, shallow, "
         "copy.copy, copy.deepcopy), each followed by up to 4 random edits confined to the clone or to the rest with the "
